@@ -1,0 +1,236 @@
+//go:build verif
+
+package main
+
+// C30 driver: executes Queue operations one per line and dumps the complete queue state
+// (items, heap array, heapIdx, seq, backoff fields) after each, bracketed by two clock readings.
+//
+//	new <backoffNs> <maxBackoffNs>     fresh Queue
+//	add <id> <variant>                 AddOrUpdate(opts(id, variant))
+//	idx <id> <variant> <state>         SetIndexed(opts(id, variant), state)   state: 0 "" 1 fail 2 success 3 success_meta 4 noop 5 empty
+//	pop                                Pop
+//	bump <ids|->                       Bump
+//	rm <ids|->                         MaybeRemoveMissing
+//	len                                Len
+//	iter                               Iterate (ids it visits)
+//	sleep <ns>                         time.Sleep
+//
+// Answer: `<t0> <t1> amb=<0|1> res=<…> seq=<q.seq> pq=<ids> items=<…> ptr=<ok|dangling>`; times are
+// nanoseconds since `new`, `Z` for the zero time.Time and `E` for time.Unix(0,0).
+
+import (
+	"fmt"
+	"reflect"
+	"sort"
+	"strconv"
+	"strings"
+	"time"
+
+	sglog "github.com/sourcegraph/log"
+
+	"github.com/sourcegraph/zoekt"
+	"github.com/sourcegraph/zoekt/internal/ctags"
+)
+
+const verifC30Variants = 8
+
+func verifC30Opts(id uint32, v int) IndexOptions {
+	if v == 0 {
+		return IndexOptions{RepoID: id}
+	}
+	o := IndexOptions{
+		RepoID:   id,
+		Name:     fmt.Sprintf("r%d", id),
+		Branches: []zoekt.RepositoryBranch{{Name: "HEAD", Version: "c1"}},
+	}
+	switch v {
+	case 2:
+		o.Branches[0].Version = "c2"
+	case 3:
+		o.Symbols = true
+	case 4:
+		o.LargeFiles = []string{}
+	case 5:
+		o.Priority = 1.5
+	case 6:
+		o.LanguageMap = ctags.LanguageMap{}
+	case 7:
+		o.Branches = nil
+	}
+	return o
+}
+
+func verifC30Decode(o IndexOptions) string {
+	for v := 0; v < verifC30Variants; v++ {
+		if reflect.DeepEqual(o, verifC30Opts(o.RepoID, v)) {
+			return fmt.Sprintf("%d.%d", o.RepoID, v)
+		}
+	}
+	return fmt.Sprintf("%d.?", o.RepoID)
+}
+
+var verifC30States = []indexState{"", indexStateFail, indexStateSuccess, indexStateSuccessMeta, indexStateNoop, indexStateEmpty}
+
+func verifIDs(s string) []uint32 {
+	if s == "-" || s == "" {
+		return nil
+	}
+	var out []uint32
+	for _, p := range strings.Split(s, ",") {
+		n, err := strconv.ParseUint(p, 10, 32)
+		if err != nil {
+			panic(err)
+		}
+		out = append(out, uint32(n))
+	}
+	return out
+}
+
+func verifShowIDs(ids []uint32) string {
+	if len(ids) == 0 {
+		return "-"
+	}
+	parts := make([]string, len(ids))
+	for i, id := range ids {
+		parts[i] = strconv.FormatUint(uint64(id), 10)
+	}
+	return strings.Join(parts, ",")
+}
+
+func newVerifC30() func([]string) string {
+	var q *Queue
+	var base time.Time
+	showT := func(t time.Time) string {
+		switch {
+		case t.IsZero():
+			return "Z"
+		case t.Equal(time.Unix(0, 0)):
+			return "E"
+		}
+		return strconv.FormatInt(int64(t.Sub(base)), 10)
+	}
+	dump := func() string {
+		q.mu.Lock()
+		defer q.mu.Unlock()
+		keys := make([]uint32, 0, len(q.items))
+		for k := range q.items {
+			keys = append(keys, k)
+		}
+		sort.Slice(keys, func(i, j int) bool { return keys[i] < keys[j] })
+		ptr := "ok"
+		var items []string
+		for _, k := range keys {
+			it := q.items[k]
+			st := -1
+			for i, s := range verifC30States {
+				if s == it.indexState {
+					st = i
+				}
+			}
+			ind := 0
+			if it.indexed {
+				ind = 1
+			}
+			// key:repoID:opts:indexed:state:heapIdx:seq:consecutiveFailures:backoffUntil:dateAdded
+			items = append(items, fmt.Sprintf("%d:%d:%s:%d:%d:%d:%d:%d:%s:%s", k, it.repoID, verifC30Decode(it.opts), ind, st,
+				it.heapIdx, it.seq, it.backoff.consecutiveFailures, showT(it.backoff.backoffUntil), showT(it.dateAddedToQueue)))
+		}
+		var pq []string
+		for _, it := range q.pq {
+			pq = append(pq, strconv.FormatUint(uint64(it.repoID), 10))
+			if q.items[it.repoID] != it {
+				ptr = "dangling"
+			}
+		}
+		show := func(xs []string, sep string) string {
+			if len(xs) == 0 {
+				return "-"
+			}
+			return strings.Join(xs, sep)
+		}
+		return fmt.Sprintf("seq=%d pq=%s items=%s ptr=%s", q.seq, show(pq, ","), show(items, ";"), ptr)
+	}
+	return func(f []string) string {
+		if f[0] == "new" {
+			d, _ := strconv.ParseInt(f[1], 10, 64)
+			m, _ := strconv.ParseInt(f[2], 10, 64)
+			q = NewQueue(time.Duration(d), time.Duration(m), sglog.NoOp())
+			base = time.Now()
+			return "0 0 amb=0 res=- " + dump()
+		}
+		if q == nil {
+			return "ERR no queue"
+		}
+		consults := f[0] == "add" || f[0] == "bump"
+		var untils []time.Time
+		if consults {
+			// keep every backoffUntil away from the clock readings this operation makes, so that the
+			// outcome of backoff.Allow is determined by t0 alone
+			for {
+				untils = untils[:0]
+				q.mu.Lock()
+				for _, it := range q.items {
+					untils = append(untils, it.backoff.backoffUntil)
+				}
+				q.mu.Unlock()
+				now := time.Now()
+				var wait time.Duration
+				for _, u := range untils {
+					if d := u.Sub(now); d > -2*time.Microsecond && d < time.Millisecond {
+						if d+5*time.Microsecond > wait {
+							wait = d + 5*time.Microsecond
+						}
+					}
+				}
+				if wait == 0 {
+					break
+				}
+				time.Sleep(wait)
+			}
+		}
+		t0 := time.Now()
+		res := "-"
+		switch f[0] {
+		case "add":
+			id, _ := strconv.ParseUint(f[1], 10, 32)
+			v, _ := strconv.Atoi(f[2])
+			q.AddOrUpdate(verifC30Opts(uint32(id), v))
+		case "idx":
+			id, _ := strconv.ParseUint(f[1], 10, 32)
+			v, _ := strconv.Atoi(f[2])
+			s, _ := strconv.Atoi(f[3])
+			q.SetIndexed(verifC30Opts(uint32(id), v), verifC30States[s])
+		case "pop":
+			item, ok := q.Pop()
+			if ok {
+				res = verifC30Decode(item.Opts) + "@" + showT(item.DateAddedToQueue)
+			} else {
+				res = "none"
+			}
+		case "bump":
+			res = verifShowIDs(q.Bump(verifIDs(f[1])))
+		case "rm":
+			res = verifShowIDs(q.MaybeRemoveMissing(verifIDs(f[1])))
+		case "len":
+			res = strconv.Itoa(q.Len())
+		case "iter":
+			var ids []uint32
+			q.Iterate(func(o *IndexOptions) { ids = append(ids, o.RepoID) })
+			sort.Slice(ids, func(i, j int) bool { return ids[i] < ids[j] })
+			res = verifShowIDs(ids)
+		case "sleep":
+			d, _ := strconv.ParseInt(f[1], 10, 64)
+			time.Sleep(time.Duration(d))
+		default:
+			return "ERR op " + f[0]
+		}
+		t1 := time.Now()
+		amb := 0
+		for _, u := range untils {
+			if !u.Before(t0) && !u.After(t1) {
+				amb = 1
+			}
+		}
+		return fmt.Sprintf("%d %d amb=%d res=%s %s", int64(t0.Sub(base)), int64(t1.Sub(base)), amb, res, dump())
+	}
+}
